@@ -505,6 +505,34 @@ def variable_in_wrong_position(rng, doc, s):
 
 
 @operator("VariablesInAllowedPositionChecker")
+def nullable_variable_as_list_item_under_defaulted_argument(rng, doc, s):
+    """`f(ids: [1, $v])` with `ids: [Int!] = [1]` and `$v: Int`: the default belongs to the argument,
+    not to the items of a list literal written for it."""
+    q = s.types[s.query]
+    cands = []
+    for f in q.fields:
+        for a in f.args:
+            base = S.nullable(a.type)
+            if a.has_default and base[0] == "list" and base[1][0] == "nonnull" and base[1][1][0] == "named":
+                cands.append((f, a))
+    ops = [o for o in doc.operations if o.kind == "query"]
+    if not cands or not ops:
+        return None
+    f, a = rng.choice(cands)
+    op = rng.choice(ops)
+    item = S.nullable(a.type)[1][1]           # the nullable item type
+    op.variables.append(("itemVar", item, UNSET))
+    args = _required_args(rng, s, f)
+    ok = _sg(rng, s).input_value_for(S.nn(item), allow_null=False)
+    args[a.name] = [ok, Var("itemVar")] if rng.random() < 0.5 else [Var("itemVar")]
+    sub = None
+    if s.kind(S.unwrap(f.type)) in ("object", "interface", "union"):
+        sub = [opgen.OField("__typename", S.unwrap(f.type))]
+    op.selection.append(opgen.OField(f.name, q.name, "itemUse", args, [], sub))
+    return True
+
+
+@operator("VariablesInAllowedPositionChecker")
 def variable_at_two_differently_typed_positions(rng, doc, s):
     """One variable used at an Int position and at a String position, in either order: whatever
     its declared type, one usage does not fit."""
@@ -630,6 +658,43 @@ def conflict_between_later_duplicates(rng, doc, s):
     plain = trio[0]
     sels.remove(plain)
     sels.insert(min(sels.index(trio[1]), sels.index(trio[2])), plain)
+    return True
+
+
+@operator("OverlappingFieldsCanBeMergedChecker")
+def conflict_between_fragment_of_one_duplicate_and_field_of_the_other(rng, doc, s):
+    """`dup: f { ...Frag } dup: f { lab: b }` with `fragment Frag on T { lab: a }`: one occurrence reaches
+    the conflicting sub-field only through a spread, the other selects it directly (either order)."""
+    cands = []
+    for sels, scope, owner in walk_selection_lists(doc, s):
+        st = s.types.get(scope)
+        if st is None or st.kind not in ("object", "interface"):
+            continue
+        for f in st.fields:
+            target = s.types.get(S.unwrap(f.type))
+            if target is not None and target.kind in ("object", "interface"):
+                leafs = [g for g in target.fields if not [a for a in g.args if a.type[0] == "nonnull" and not a.has_default]]
+                if len(leafs) >= 2:
+                    cands.append((sels, st, f, target, leafs))
+    if not cands:
+        return None
+    sels, st, f, target, leafs = rng.choice(cands)
+    g, h = rng.sample(leafs, 2)
+    args = _required_args(rng, s, f)
+
+    def sub(x):
+        inner = None
+        if s.kind(S.unwrap(x.type)) in ("object", "interface", "union"):
+            inner = [opgen.OField("__typename", S.unwrap(x.type))]
+        return opgen.OField(x.name, target.name, "lab", collections.OrderedDict(), [], inner)
+
+    name = "ViaSpread%d" % len(doc.fragments)
+    doc.fragments[name] = opgen.OFragment(name, target.name, [sub(g)])
+    pair = [opgen.OField(f.name, st.name, "dupe", copy.deepcopy(args), [], [opgen.OSpread(name)]),
+            opgen.OField(f.name, st.name, "dupe", copy.deepcopy(args), [], [sub(h)])]
+    if rng.random() < 0.5:
+        pair.reverse()
+    sels.extend(pair)
     return True
 
 
